@@ -34,6 +34,21 @@ PROPS = {
         note="Trusted: EvalFilter/MatchFull (written from data.proto comments). Accepted either way: count 0; invalid node that no cell reaches; double labels and row limit/offset after an interleave over several families are treated as unspecified.",
         units=[dict(pkg="bt", test="TestC05Enum", kind="enum", quick=1, thorough=1, shards_quick=4, shards_thorough=16),
                dict(pkg="bt", test="TestC05", quick=4500, thorough=90000)]),
+    "C12": dict(level="exploration", assumptions=A_BT,
+        technique="model-based + metamorphic property testing (rapid): predicate evaluated by the independent filter evaluator, by the emulator's own ReadRows, and by predicate_matched; selected branch applied to the reference model",
+        text="Random row histories and CheckAndMutateRow requests (predicate trees incl. ones that match but yield no cell or that error; empty/invalid mutation lists) on three engines: predicate_matched must equal the evaluator's 'yields >=1 cell' and the emulator's own filtered read; exactly the selected list is applied (model), everything else in the table is unchanged, failures leave the row untouched.",
+        note="Trusted: filter evaluator and mutation model. An invalid mutation in the unselected branch may be rejected or ignored; unspecified predicates (double labels, limits after interleave over several families) only require a clean status.",
+        units=[dict(pkg="bt", test="TestC12", quick=6000, thorough=150000)]),
+    "C14": dict(level="exploration", assumptions=A_BT,
+        technique="model-based stateful property testing (rapid): generated admin+data programs vs. registry model, all observers compared after every request",
+        text="Random admin/data programs over several tables and parents on three engines; after every request ListTables, GetTable, a full scan and SampleRowKeys of every table are compared with a registry model (all-or-nothing ModifyColumnFamilies, family drop purges cells, DropRowRange by prefix incl. 0xff-terminated prefixes, NotFound after DeleteTable, empty table after re-create).",
+        note="Trusted: registry/data model in internal/bt/model.go. Empty prefixes and modifications without a oneof are not generated.",
+        units=[dict(pkg="bt", test="TestC14", quick=2400, thorough=60000)]),
+    "C17": dict(level="exploration", assumptions=["direct service calls with a wire round-trip stand in for gRPC", "go toolchain, rapid v1.3.0"],
+        technique="differential property testing (rapid): the same generated program on three storage engines, responses compared request by request",
+        text="Random sequential admin/data programs (incl. scans that fail only on some rows, limits, drops/clears, re-created tables) run on three servers that differ only in the storage engine; every response must be identical, including rows streamed before a failing scan's error. No model is involved; a disagreement is itself the counterexample.",
+        note="Sample filters and SampleRowKeys are excluded (process-global RNG). Family order inside a row is compared as streamed (engines share the row encoding).",
+        units=[dict(pkg="bt", test="TestC17", quick=1500, thorough=40000)]),
 }
 
 NOT_APPLICABLE = [dict(property_id=p, reason="check not built yet in this session (work in progress; see DESIGN.md §8 build order)") for p in ALL if p not in PROPS]
